@@ -217,7 +217,8 @@ class World:
         self.stats['state_changes'] += 1
 
     op_set_aperture = op_set_field_type = op_add_field = \
-        op_set_polarization = lambda self, op: self._build(op)
+        op_set_polarization = op_set_telecentric = \
+        lambda self, op: self._build(op)
 
     def need_lens(self, nmin=3):
         m = self.model
@@ -1253,7 +1254,8 @@ C07_FEATS = ['conic', 'tilt', 'mirror', 'glass', 'abbe', 'absorb',
              'planes', 'stop_any', 'glass_str', 'units']
 C19_FEATS = [x for x in lensgen.ALL_FEATURES if x != 'bsdf']
 C01_FEATS = [x for x in lensgen.ALL_FEATURES
-             if x not in ('bsdf', 'coat_simple', 'coat_fresnel', 'polarized')]
+             if x not in ('bsdf', 'coat_simple', 'coat_fresnel', 'polarized',
+                          'telecentric')]
 
 
 def swarm(ch, prop, cfg):
